@@ -1,7 +1,7 @@
 (* C09 — HDLC frames follow the frame format, round-trip; corruption never alters content.
    (partial: see the level note in MANIFEST.json and DESIGN.md; the parse-after-build and
    corruption statements are checked by exhaustive fault enumeration on the implementation) *)
-From Dlms Require Import CrcSpec CrcDetect FrameDetect Base CrcModel CrcSpec FieldsSpec AddrModel AddrSpec AddrProofs FrameModel FrameSpec FrameProofs.
+From Dlms Require Import CrcSpec CrcDetect CrcWeight FrameDetect FrameWeight Base CrcModel CrcSpec FieldsSpec AddrModel AddrSpec AddrProofs FrameModel FrameSpec FrameProofs.
 
 (* every frame the library can build (all six kinds, addresses in the C13 domain, numbers 0..7,
    both flag bits, any payload with total length <= 2047) serialises to
@@ -39,6 +39,34 @@ Theorem C09_burst_error_at_end_refused : forall k b before m p s,
   exists e, frame_from_bytes k (xor_bytes b (frame_error_end before m p s)) = Err e.
 Proof. exact burst_error_at_end_refused. Qed.
 Print Assumptions C09_burst_error_at_end_refused.
+(* ... and every error of TWO bits (frames up to 4097 bytes; the library's frames are at most 2049) and of THREE bits between the
+   flags: with the burst theorem (one bit) this is every error of up to three bits; a damaged flag is refused by C09_acceptance_sound *)
+Theorem C09_two_bit_error_refused : forall k b i1 q1 i2 q2,
+  let L := (length b - 2)%nat in
+  (4 <= length b)%nat -> (length b <= 4097)%nat -> (i1 < L)%nat -> (i2 < L)%nat -> q1 < 8 -> q2 < 8 -> (i1, q1) <> (i2, q2) ->
+  let e := xor_bytes (sbit L i1 q1) (sbit L i2 q2) in
+  bytes_ok b -> bytes_ok (xor_bytes b (0 :: e ++ [0])) -> fcs_valid b ->
+  exists err, frame_from_bytes k (xor_bytes b (0 :: e ++ [0])) = Err err.
+Proof. exact two_bit_error_refused. Qed.
+Print Assumptions C09_two_bit_error_refused.
+Theorem C09_three_bit_error_refused : forall k b i1 q1 i2 q2 i3 q3,
+  let L := (length b - 2)%nat in
+  (4 <= length b)%nat -> (i1 < L)%nat -> (i2 < L)%nat -> (i3 < L)%nat -> q1 < 8 -> q2 < 8 -> q3 < 8 ->
+  let e := xor_bytes (xor_bytes (sbit L i1 q1) (sbit L i2 q2)) (sbit L i3 q3) in
+  bytes_ok b -> bytes_ok (xor_bytes b (0 :: e ++ [0])) -> fcs_valid b ->
+  exists err, frame_from_bytes k (xor_bytes b (0 :: e ++ [0])) = Err err.
+Proof. exact three_bit_error_refused. Qed.
+Print Assumptions C09_three_bit_error_refused.
+(* in general: any error pattern between the flags whose syndrome is not zero; any pattern of odd weight has one *)
+Theorem C09_nonzero_syndrome_refused : forall k b e, length b = (length e + 2)%nat -> (4 <= length b)%nat ->
+  bytes_ok b -> bytes_ok (xor_bytes b (0 :: e ++ [0])) -> fcs_valid b -> syndrome e <> 0 ->
+  exists err, frame_from_bytes k (xor_bytes b (0 :: e ++ [0])) = Err err.
+Proof. exact nonzero_syndrome_refused. Qed.
+Print Assumptions C09_nonzero_syndrome_refused.
+Theorem C09_odd_weight_detected : forall e, bytes_ok e -> pattern_parity e = true -> syndrome e <> 0.
+Proof. exact odd_weight_detected. Qed.
+Print Assumptions C09_odd_weight_detected.
+
 (* the register is linear, and every burst has a non-zero syndrome *)
 Theorem C09_crc_detects_bursts : forall m before after p s, p < 65536 -> p <> 0 -> s < 8 ->
   length m = (before + 3 + after)%nat ->
